@@ -12,8 +12,8 @@ import PasfmtModel.Model.WrapStage
 import PasfmtModel.Model.WrapStageFull
 import PasfmtModel.Model.PipelineFull
 import PasfmtModel.Model.LayoutCheck
-import PasfmtModel.Proofs.CrlfFull
-import PasfmtModel.Proofs.ParserParents
+import PasfmtModel.Model.CrlfCheck
+import PasfmtModel.Model.ParserChecks
 
 namespace Pasfmt
 
